@@ -825,7 +825,7 @@ func extractMarshal(m *model.Msg) (*marshalModel, error) {
 			// map block?
 			if mb, err, isMap := w.mapBlock(is.Body.List, out); isMap {
 				if err != nil {
-					return nil, fmt.Errorf("map block at %s: %w", m.Pkg.Fset.Position(is.Pos()), err)
+					return nil, fmt.Errorf("map block at line %d: %w", m.Pkg.Fset.Position(is.Pos()).Line, err)
 				}
 				_ = mb
 			} else if err := w.stmts(is.Body.List, out, nil); err != nil {
